@@ -175,12 +175,88 @@ static void layoutCase(long k, const vh::Args &a) {
     vh::endCase();
 }
 
+// makeFeasible() called a second time over the *same* CompoundConstraint objects: (fdmf2) again on
+// the same ConstrainedFDLayout after the rectangles were dragged to positions that violate the
+// constraints, or (fdmfre) on a fresh ConstrainedFDLayout built over the same rectangles and
+// constraint pointers. The rectangles are inspected right after the second makeFeasible().
+static void repeatCase(long k, const vh::Args &a) {
+    vh::Rng r = vh::caseRng(a.seed, k);
+    bool thorough = a.tier == "thorough";
+    Scene s;
+    unsigned n = (unsigned) r.range(2, thorough ? 16 : 10);
+    genGraph(r, s, n);
+    genRects(r, s, n);
+    genHidden(r, s, 0);
+    bool unsat = r.coin(1, 4);
+    bool fresh = r.coin();
+    if (unsat) { genSatisfiable(r, s, (unsigned) r.range(1, thorough ? 6 : 4), true, true); plantUnsat(r, s); }
+    else genForestSatisfiable(r, s, (unsigned) r.range(1, thorough ? 7 : 5));
+    if (r.coin(1, 3)) shuffleCCs(r, s);
+    bool overlap = !unsat ? false : r.coin(1, 4);   // overlap avoidance may conflict with a satisfiable mix
+    const char *an = fresh ? "fdmfre" : "fdmf2";
+    std::string tag = std::string(an) + (s.planted ? "-unsat" : "-sat");
+    // where the user drags the nodes between the two calls (centres; dyadic)
+    std::vector<std::pair<double, double> > drag;
+    int dragKind = (int) r.range(0, 2);
+    for (unsigned i = 0; i < n; ++i) {
+        double cx = cxOf(s.rects[i]), cy = cyOf(s.rects[i]);
+        if (dragKind == 0) { cx += q4(r, -60, 60); cy += q4(r, -60, 60); }          // start + jitter
+        else if (dragKind == 1) { cx = q4(r, -200, 200); cy = q4(r, -200, 200); }   // anywhere
+        else { cx = 0; cy = 0; }                                                    // all on one point
+        drag.push_back(std::make_pair(cx, cy));
+    }
+    vh::beginCase(k, tag.c_str());
+    printScene(s);
+    printf("algo %s\noverlap %d\nnstress 0\niters 0\n", an, (int) overlap);
+    for (unsigned i = 0; i < n; ++i) printf("drag %u %s %s\n", i, H(drag[i].first), H(drag[i].second));
+    fflush(stdout);
+
+    vpsc::Rectangles rs = buildRects(s.rects);
+    cola::CompoundConstraints ccs = buildCCs(s.ccs, rs);
+    cola::EdgeLengths el(s.elen.begin(), s.elen.end());
+    cola::UnsatisfiableConstraintInfos ux, uy;
+    cola::TestConvergence test(1e-4, 1);
+    std::string exc;
+    cola::ConstrainedFDLayout *alg = new cola::ConstrainedFDLayout(rs, s.edges, s.ideal, el, &test);
+    alg->setConstraints(ccs);
+    alg->setUnsatisfiableConstraintInfo(&ux, &uy);
+    alg->setAvoidNodeOverlaps(overlap);
+    exc = runGuarded([&]() { alg->makeFeasible(); });
+    for (size_t i = 0; i < rs.size(); ++i)
+        printf("out1 %zu %s %s %s %s\n", i, H(rs[i]->getMinX()), H(rs[i]->getMaxX()), H(rs[i]->getMinY()), H(rs[i]->getMaxY()));
+    if (exc == "none") {
+        for (unsigned i = 0; i < n; ++i) rs[i]->moveCentre(drag[i].first, drag[i].second);
+        for (size_t i = 0; i < rs.size(); ++i)
+            printf("dragged %zu %s %s %s %s\n", i, H(rs[i]->getMinX()), H(rs[i]->getMaxX()), H(rs[i]->getMinY()), H(rs[i]->getMaxY()));
+        fflush(stdout);
+        if (fresh) {
+            delete alg;
+            alg = new cola::ConstrainedFDLayout(rs, s.edges, s.ideal, el, &test);
+            alg->setConstraints(ccs);
+            alg->setUnsatisfiableConstraintInfo(&ux, &uy);
+            alg->setAvoidNodeOverlaps(overlap);
+        }
+        exc = runGuarded([&]() { alg->makeFeasible(); });
+    }
+    printOut(rs);
+    printUnsat(0, ux, ccs); printUnsat(1, uy, ccs);
+    printf("exc %s\n", oneWord(exc).c_str());
+    if (exc != "none") { vh::endCase(); _exit(0); }
+    delete alg;
+    for (auto *p : ux) delete p;
+    for (auto *p : uy) delete p;
+    for (auto *c : ccs) delete c;
+    for (auto *q : rs) delete q;
+    vh::endCase();
+}
+
 int main(int argc, char **argv) {
     vh::Args a = vh::parseArgs(argc, argv);
     bool thorough = a.tier == "thorough";
     long ngen = (thorough ? 6000 : 600) * a.scale;
     long nlay = (thorough ? 2500 : 500) * a.scale;
-    if (a.n >= 0) { ngen = a.n; nlay = a.n; }
+    long nrep = (thorough ? 1500 : 250) * a.scale;
+    if (a.n >= 0) { ngen = a.n; nlay = a.n; nrep = a.n; }
     long k = 0;
     for (long i = 0; i < ngen; ++i, ++k) if (a.want(k)) genCase(k, a);
     // Every layout scenario runs in a forked child with an alarm: a call into the library that
@@ -192,6 +268,16 @@ int main(int argc, char **argv) {
         fflush(stdout);
         pid_t pid = fork();
         if (pid == 0) { alarm(limit); layoutCase(k, a); fflush(stdout); exit(0); }
+        int st = 0; waitpid(pid, &st, 0);
+        if (WIFSIGNALED(st) && WTERMSIG(st) == SIGALRM) { printf("hang %u\n", limit); vh::endCase(); continue; }
+        if (WIFSIGNALED(st)) { fprintf(stderr, "child killed by signal %d in case %ld\n", WTERMSIG(st), k); return 99; }
+        if (WEXITSTATUS(st) != 0) return WEXITSTATUS(st);
+    }
+    for (long i = 0; i < nrep; ++i, ++k) {
+        if (!a.want(k)) continue;
+        fflush(stdout);
+        pid_t pid = fork();
+        if (pid == 0) { alarm(limit); repeatCase(k, a); fflush(stdout); exit(0); }
         int st = 0; waitpid(pid, &st, 0);
         if (WIFSIGNALED(st) && WTERMSIG(st) == SIGALRM) { printf("hang %u\n", limit); vh::endCase(); continue; }
         if (WIFSIGNALED(st)) { fprintf(stderr, "child killed by signal %d in case %ld\n", WTERMSIG(st), k); return 99; }
